@@ -201,7 +201,8 @@ CHECKS["C17"] = dict(
     level_text="config.Load never panics or hangs on any member of the families; every configuration it accepts satisfies the statement's well-formedness list (checked on the loaded structure: root receiver and no matchers/intervals, defined receivers and intervals, unique names incl. across mute_time_intervals/time_intervals, group_by without duplicates or '...'+labels, non-zero intervals, no nil route); String() prints no secret (every secret-typed field set to a sentinel; the list of secret-typed fields is pinned) and secret-free configurations load back to the same routing tree, inhibit rules and intervals; a rejected reload leaves the running configuration in force.",
     level_note="'Any byte string' is covered through these closed families only. The pinned list of secret paths is /verif/harness/config/secret_paths.golden (generated from the pinned tree).",
     assumptions=E4_ASSUME,
-    units=[dict(pkg="config", test="TestVerifC17", shards_quick=16, shards_thorough=16, budget_quick=100, budget_thorough=1500)],
+    units=[dict(pkg="config", test="TestVerifC17", shards_quick=8, shards_thorough=16, budget_quick=100, budget_thorough=1500),
+           dict(pkg="app", test="TestVerifC17App", shards_quick=8, shards_thorough=16, budget_quick=100, budget_thorough=1500)],
 )
 
 CHECKS["C20"] = dict(
